@@ -335,7 +335,17 @@ func c05Run(t *testing.T, r *verifsim.Run) {
 			key = []byte{}
 		}
 		if tp.Chance("outside-key-differs", 1, 3) || len(key) == 0 {
-			ev.key = append([]byte{0x42}, key...)
+			switch tp.Choose("outside-key-variant", 3) {
+			case 0:
+				ev.key = append([]byte{0x42}, key...)
+			case 1:
+				ev.key = append([]byte(nil), key...)
+				if len(ev.key) > 0 {
+					ev.key[len(ev.key)-1] ^= 1
+				}
+			default:
+				ev.key = append([]byte(nil), key[:len(key)/2]...)
+			}
 			r.Fault("outside-result-different-key")
 		} else {
 			ev.key = key
